@@ -127,8 +127,10 @@ class OpAddNe(OpAdd):
                 parent.append(self.value)
             else:
                 parent.insert(int(target), self.value)
-        elif isinstance(parent, MutableMapping) and target not in parent:
-            parent[target] = self.value
+        elif isinstance(parent, MutableMapping):
+            key = _member_name(parent, target)
+            if key not in parent:
+                parent[key] = self.value
         return data
 
 
@@ -162,7 +164,7 @@ class OpAddAp(OpAdd):
             else:
                 parent.insert(int(target), self.value)
         elif isinstance(parent, MutableMapping):
-            parent[target] = self.value
+            parent[_member_name(parent, target)] = self.value
         else:
             raise JSONPatchError(
                 f"unexpected operation on {parent.__class__.__name__!r}"
